@@ -13,7 +13,7 @@ CLAIM = {
              "(R13) the x values of a slice are selected per slice whenever x is a data variable, and some definition of them reaches ax.plot both for x a data variable and x a coordinate; (R14) loc = {dimension name: index of the product loop}, names and index ranges appended in lock-step; "
              "(R15) no look-up keyed by a mapped property (loc[...], ds_loc[...], ', '.join(...)) on a path whose own tests say the property is None; (R16) init_mapped_dim, by truth tables over its path conditions: fused names are stacked iff all components are dimensions and the fused name is not one yet, "
              "a given value that is no dimension is a constant style (size 1, attribute reset to None), a dimension is mapped (domains recorded, size = their number), custom values stored iff given, defaults otherwise and taken from default_values, every normal path records the resolved attribute; "
-             "(R17) every property whose domains / values / sizes the drawing code reads is initialised by init_mapped_dim on every path through __init__; (B6) builtin calls are given plausible argument kinds. Not decided: everything about the drawn values."),
+             "(R17) every property whose domains / values / sizes the drawing code reads is initialised by init_mapped_dim on every path through __init__; (R20) with an explicit <prop>_order the dataset is re-indexed by it on every path of init_mapped_dim that goes on to record the coordinates (a skip when the order equals the sorted coordinates is reported; any other guarded skip is exit 2); (B6) builtin calls are given plausible argument kinds. Not decided: everything about the drawn values."),
     "note": "Trusted base: matplotlib slot table; xarray isel / sel / dropna semantics; np.histogram density normalisation for uneven bins.",
     "technique": "static analysis: role-provenance rules at draw sinks, CFG path rules over the location loop, ordering rule on dataset re-indexing vs coordinate capture, alias/taint no-mutation rule, path-condition truth tables, contradiction rule on None-tested keys",
 }
